@@ -131,8 +131,55 @@ func (x *Exec) resolveType(name string, pkg *types.Package) (types.Type, string)
 			return tv.Type, x.Sorts.SortOf(tv.Type)
 		}
 	}
+	// qualified names of imported packages: [*|[]]pkg.Name
+	if t := x.qualifiedType(name); t != nil {
+		return t, x.Sorts.SortOf(t)
+	}
 	x.limit("cannot resolve type %q", name)
 	return nil, ""
+}
+
+func (x *Exec) qualifiedType(name string) types.Type {
+	switch {
+	case strings.HasPrefix(name, "*"):
+		if t := x.qualifiedType(name[1:]); t != nil {
+			return types.NewPointer(t)
+		}
+		return nil
+	case strings.HasPrefix(name, "[]"):
+		if t := x.qualifiedType(name[2:]); t != nil {
+			return types.NewSlice(t)
+		}
+		return nil
+	}
+	i := strings.LastIndex(name, ".")
+	if i < 0 {
+		for _, pk := range []*types.Package{x.curPkg, x.P.TPkgs["bcl"]} {
+			if pk == nil {
+				continue
+			}
+			if tv, err := types.Eval(x.P.Fset, pk, token.NoPos, name); err == nil && tv.Type != nil {
+				return tv.Type
+			}
+		}
+		return nil
+	}
+	pn, tn := name[:i], name[i+1:]
+	var cands []*types.Package
+	for _, pk := range x.P.TPkgs {
+		cands = append(cands, pk)
+		cands = append(cands, pk.Imports()...)
+	}
+	for _, pk := range cands {
+		if pk.Name() == pn || pk.Path() == pn {
+			if o := pk.Scope().Lookup(tn); o != nil {
+				if _, ok := o.(*types.TypeName); ok {
+					return o.Type()
+				}
+			}
+		}
+	}
+	return nil
 }
 
 func (x *Exec) blockType() types.Type {
@@ -194,7 +241,35 @@ func (x *Exec) lookupLocal(env *Env, name string) *Value {
 					return v
 				}
 			} else {
+				if _, isStruct := structOf(p.Obj); isStruct && p.Kind == PObj && len(p.Path) == 0 && isExternalStruct(p.Obj) {
+					// a heap-allocated local of an opaque library struct type denotes its value
+					src := st
+					if env.inOld {
+						src = env.old
+					}
+					return x.loadIn(src, p)
+				}
 				return &Value{T: p.Ref, Typ: types.NewPointer(p.Obj), Ptr: p}
+			}
+		}
+	}
+	// captured variables of a closure: their current value (entry value inside old())
+	if !env.inOld && fr.Fn != nil {
+		for i, fv := range fr.Fn.FreeVars {
+			var bv *Value
+			if i < len(fr.Bindings) {
+				bv = fr.Bindings[i]
+			}
+			if bv == nil {
+				bv = fr.Regs[fv]
+			}
+			if fv.Name() == name && bv != nil && bv.Ptr != nil {
+				bp := bv.Ptr
+				if bp.Kind == PCell && len(bp.Path) == 0 {
+					if v, ok := st.cells[bp.Cell]; ok {
+						return v
+					}
+				}
 			}
 		}
 	}
@@ -483,6 +558,19 @@ func (x *Exec) rootReadIn(st *State, p *Pointer) (string, types.Type) {
 		}
 		hn, hs := x.elemHeapName(el)
 		return app("select", app("select", x.heapIn(st, hn, hs), p.Ref), p.Idx), el
+	case PObj:
+		if stt, ok := structOf(p.Obj); ok {
+			sn := x.Sorts.structSort(p.Obj, stt)
+			if stt.NumFields() == 0 {
+				return "mk_" + sn, p.Obj
+			}
+			var fs []string
+			for i := 0; i < stt.NumFields(); i++ {
+				hn, hs := x.fieldHeapName(p.Obj, i)
+				fs = append(fs, app("select", x.heapIn(st, hn, hs), p.Ref))
+			}
+			return app("mk_"+sn, fs...), p.Obj
+		}
 	}
 	x.limit("rootReadIn: unsupported pointer kind")
 	return "", nil
@@ -1041,7 +1129,15 @@ func (x *Exec) evalCall(env *Env, c *CCall) *Value {
 	case "istype":
 		// dynamic type test on a (non-empty) interface value: istype(v, "T")
 		a := arg(0)
-		tn := c.Args[1].(*CLit).Val
+		tn := ""
+		switch a1 := c.Args[1].(type) {
+		case *CLit:
+			tn = strings.Trim(a1.Val, "\"")
+		case *CIdent:
+			tn = a1.Name
+		default:
+			x.limit("istype: second argument must be a type name")
+		}
 		t, _ := x.resolveType(tn, env.pkg)
 		return boolV(and(not(eq(x.term(a), "0")), eq(app("dyntype", x.term(a)), fmt.Sprint(x.typeID(t)))))
 	case "same":
@@ -1285,4 +1381,12 @@ func (x *Exec) lemmaProofGoal(lm *Lemma) string {
 	ih := implies(ppre, ppost)
 	body := implies(and(append(guards, pre, ih)...), post)
 	return fmt.Sprintf("(forall (%s) %s)", strings.Join(binders, " "), body)
+}
+
+func isExternalStruct(t types.Type) bool {
+	if n, ok := t.(*types.Named); ok && n.Obj().Pkg() != nil {
+		pp := n.Obj().Pkg().Path()
+		return pp != bclPath && pp != mainPath && pp != uvarintPath
+	}
+	return false
 }
